@@ -156,6 +156,44 @@ impl Arm for SampledArm {
     }
 }
 
+/// Proofs of constant traces have a remainder whose upper coefficients are zero: the same
+/// polynomial can be written with fewer or with more coefficients. Each such re-encoding is a
+/// different proof (its decoded content differs) and must be refused - the remainder commitment
+/// binds the coefficient list that was sent, not only the polynomial. Only remainder-shape edits
+/// are applied to these degenerate bases: every other part of such a proof is legitimately
+/// independent of the challenges (see DESIGN 6.3).
+struct RemainderFormsArm;
+
+impl Arm for RemainderFormsArm {
+    fn name(&self) -> String {
+        "low-degree-remainder-forms".into()
+    }
+    fn runs(&self, tier: Tier, _seed: u64) -> u64 {
+        match tier {
+            Tier::Quick => 1_500,
+            Tier::Thorough => 40_000,
+        }
+    }
+    fn run(&self, _info: &RunInfo, ch: &mut Chooser, ctx: &mut Ctx) {
+        let Some(base) = constant_base(ch) else {
+            ctx.skipped = Some("no_constant_base_for_this_configuration");
+            return;
+        };
+        let variant = ch.index("remainder.form", 5);
+        let Some((what, data)) = wire::coordinated_fault(base.bytes(), base.layout(), wire::REMAINDER_KIND, variant) else {
+            ctx.skipped = Some("remainder_has_a_single_coefficient");
+            return;
+        };
+        ctx.fault("remainder_re_encoded_on_a_low_degree_proof");
+        danger_zone(ch);
+        let d = base.deliver(&data, false, Inputs::Matching, 0, ch, ctx);
+        ctx.event_with("deliver", simcore::rng::fnv1a(format!("{}{what}{:?}{:?}{:?}", base.name(), d.parse, d.verify.as_ref().map(|v| v.short()), d.same_content).as_bytes()), || {
+            format!("base [{}] (constant trace): {what} -> parse {:?}, verify {}, content unchanged: {:?}", base.name(), d.parse, d.verify.as_ref().map(|v| v.short()).unwrap_or("-".into()), d.same_content)
+        });
+        judge(ctx, base.as_ref(), &what, &d, "low-degree");
+    }
+}
+
 pub fn spec() -> CheckSpec {
     let iso = |a: Box<dyn Arm>| -> Box<dyn Arm> { Box::new(IsoArm { check_id: "C03", inner: a, timeout_s: 60, exe_env: None, alias: None }) };
     let arms: Vec<Box<dyn Arm>> = vec![
@@ -164,12 +202,13 @@ pub fn spec() -> CheckSpec {
         iso(Box::new(EnumArm { kind: EnumKind::BitFlips, index: simcore::Keyed::new(), quick_bases: 14 })),
         iso(Box::new(SampledArm)),
         Box::new(crate::c03_adaptive::AdaptiveArm),
+        iso(Box::new(RemainderFormsArm)),
     ];
     CheckSpec {
         id: "C03",
         level: "fault_enumeration",
         build: "serial",
-        rule: "bases = accepted honest proofs across (field, hasher) pairs, extensions and shape / option flavours. Enumerated completely per base: every single-bit flip (quick: 14 bases, thorough: all) and every count / length / tag field x boundary values. Sampled: byte overwrites, component removal / duplication / swap with and without prefix fix-up, blob growth / shrinkage, splices, random fields. Adaptive arm: a man in the middle that first learns the verifier's query positions (recording coin) and then substitutes components that agree with the original on every queried position (FRI remainder + multiple of the vanishing polynomial of the queried points, remainder commitment, reordered / duplicated openings, OOD values, re-ground nonce, altered context). Oracle: mutated proof parses AND is accepted => its decoded content (digests, field elements, counts; FRI partition count excluded) equals the original's. Non-trivial = a fault fired; distinct = distinct event-log digests.".into(),
+        rule: "bases = accepted honest proofs across (field, hasher) pairs, extensions and shape / option flavours. Enumerated completely per base: every single-bit flip (quick: 14 bases, thorough: all) and every count / length / tag field x boundary values. Sampled: byte overwrites, component removal / duplication / swap with and without prefix fix-up, blob growth / shrinkage, splices, random fields. Adaptive arm: a man in the middle that first learns the verifier's query positions (recording coin) and then substitutes components that agree with the original on every queried position (FRI remainder + multiple of the vanishing polynomial of the queried points, remainder commitment, reordered / duplicated openings, OOD values, re-ground nonce, altered context). low-degree-remainder-forms: fresh proofs of constant traces (deliberately degenerate) whose remainder is re-encoded with fewer or more coefficients (zero upper part dropped / zeros appended / doubled / emptied), length prefix fixed. Oracle: mutated proof parses AND is accepted => its decoded content (digests, field elements, counts; FRI partition count excluded) equals the original's. Non-trivial = a fault fired; distinct = distinct event-log digests.".into(),
         interleaving_measure: "distinct (base, fault / substitution, verdict) histories".into(),
         real: vec!["Proof deserializers, winter-verifier verify(), FRI verifier, Merkle batch verification (all real)"],
         stub: vec!["SimAir (the computation family)", "the harness' semantic decoder (decides whether content changed)"],
